@@ -334,18 +334,68 @@ theorem probeGeometry_sound (m : Media) (fmt : Format) (total : Nat) (cands : Li
     total ≤ (if singleSidedFilesystem fmt m then ff.geom.cylinders * ff.geom.sectors else ff.geom.totalSectors) := by
   unfold probeGeometry at h
   have hm := minElement_mem _ _ _ h
-  have hm' : ff ∈ cands.filter (fun ff =>
-      decide ((if singleSidedFilesystem fmt m = true then ff.geom.cylinders * ff.geom.sectors
-        else ff.geom.totalSectors) ≥ total)) := by
-    by_cases hc : (cands.filter (fun ff =>
-      decide ((if singleSidedFilesystem fmt m = true then ff.geom.cylinders * ff.geom.sectors
-        else ff.geom.totalSectors) ≥ total))).length > 1
-    · simp only [hc, if_true] at hm
-      exact (List.mem_filter.mp hm).1
-    · simp only [hc, if_false] at hm
-      exact hm
-  have := List.mem_filter.mp hm'
+  simp only [] at hm
+  have key : ∀ P : List ImgFmt, ff ∈ (if P.length > 1 then
+        (if (P.filter (fun ff =>
+            if ff.geom.heads == 1 then true
+            else hasValidDfsCatalog m (ff.geom.sectors * (if ff.interleaved then 1 else ff.geom.cylinders)))).isEmpty
+          then P
+          else P.filter (fun ff =>
+            if ff.geom.heads == 1 then true
+            else hasValidDfsCatalog m (ff.geom.sectors * (if ff.interleaved then 1 else ff.geom.cylinders))))
+        else P) → ff ∈ P := by
+    intro P hP
+    by_cases hc : P.length > 1
+    · rw [if_pos hc] at hP
+      by_cases hw : (P.filter (fun ff =>
+            if ff.geom.heads == 1 then true
+            else hasValidDfsCatalog m (ff.geom.sectors * (if ff.interleaved then 1 else ff.geom.cylinders)))).isEmpty = true
+      · rw [if_pos hw] at hP; exact hP
+      · rw [if_neg hw] at hP; exact (List.mem_filter.mp hP).1
+    · rw [if_neg hc] at hP; exact hP
+  have := List.mem_filter.mp (key _ hm)
   exact ⟨this.1, by simpa using this.2⟩
+
+theorem minElement_isSome {α} (less : α → α → Bool) (l : List α) (h : l ≠ []) :
+    (minElement less l).isSome := by
+  cases l with
+  | nil => exact absurd rfl h
+  | cons y ys => simp [minElement]
+
+/-- Totality of geometry probing (after the repair: the "other side" filter is only a tie-breaker):
+it fails only when no candidate is large enough. -/
+theorem probeGeometry_total (m : Media) (fmt : Format) (total : Nat) (cands : List ImgFmt)
+    (h : ∃ ff ∈ cands, (if singleSidedFilesystem fmt m then ff.geom.cylinders * ff.geom.sectors
+      else ff.geom.totalSectors) ≥ total) :
+    (probeGeometry m fmt total cands).isSome := by
+  obtain ⟨ff, hmem, hge⟩ := h
+  have hne : cands.filter (fun ff =>
+      decide ((if singleSidedFilesystem fmt m = true then ff.geom.cylinders * ff.geom.sectors
+        else ff.geom.totalSectors) ≥ total)) ≠ [] := by
+    intro he
+    have : ff ∈ cands.filter (fun ff =>
+      decide ((if singleSidedFilesystem fmt m = true then ff.geom.cylinders * ff.geom.sectors
+        else ff.geom.totalSectors) ≥ total)) :=
+      List.mem_filter.mpr ⟨hmem, by simpa using hge⟩
+    rw [he] at this
+    cases this
+  unfold probeGeometry
+  apply minElement_isSome
+  simp only []
+  generalize cands.filter (fun ff =>
+      decide ((if singleSidedFilesystem fmt m = true then ff.geom.cylinders * ff.geom.sectors
+        else ff.geom.totalSectors) ≥ total)) = P at hne
+  by_cases hc : P.length > 1
+  · rw [if_pos hc]
+    generalize P.filter _ = W
+    by_cases hw : W.isEmpty = true
+    · rw [if_pos hw]; exact hne
+    · rw [if_neg hw]
+      intro he
+      rw [he] at hw
+      exact hw rfl
+  · rw [if_neg hc]
+    exact hne
 
 /-! ### Extension hints -/
 
